@@ -9,6 +9,7 @@ VERIF = os.path.abspath(os.path.join(os.path.dirname(__file__), "..", "..", ".."
 # dry mode: used by the thorough tier's checker self-test (seeded changes applied to a scratch copy):
 # finish() then prints nothing and writes nothing, it only records what was found.
 DRY = False
+REPLAY = None  # (rule, key) of one violation to re-evaluate: ./check <id> --replay <file>
 LAST = None
 EXTRA_COVERAGE = {}
 
@@ -88,6 +89,15 @@ def finish(res, explanation, checker_cmd=None, trusted_base=None, tv=None):
         known_keys0 = {(k["rule"], k["key"]) for k in load_known() if k.get("property") == res.prop and k.get("status") == "open"}
         LAST = [v for v in res.violations if (v.rule, v.key) not in known_keys0]
         return 1 if LAST else 0
+    if REPLAY is not None:
+        hit = [v for v in res.violations if (v.rule, v.key) == REPLAY]
+        if hit:
+            v = hit[0]
+            print("%s: %s: %s [%s]" % (v.where or "-", v.rule, v.msg, v.key))
+            print("REPLAY property=%s rule=%s key=%s: still violated" % (res.prop, v.rule, v.key))
+            return 1
+        print("REPLAY property=%s rule=%s key=%s: no longer violated on this tree" % ((res.prop,) + REPLAY))
+        return 0
     known = [k for k in load_known() if k.get("property") == res.prop and k.get("status") == "open"]
     known_keys = {(k["rule"], k["key"]): k for k in known}
     ev_dir = os.path.join(VERIF, "evidence")
